@@ -1,6 +1,7 @@
 (* C17 — correspondence glue: cases written by the Rust harness (inputs + what the real
    TcpStream did) are re-run on the model inside Coq and compared. *)
 From HV Require Import Lib.Base Lib.Pack C17.Model.
+From HV Require Export C17.Combined C17.Timeout.
 Open Scope N_scope.
 
 (* script events with packed payloads *)
@@ -17,7 +18,27 @@ Definition obs_wfin (f : wfin) : N := match f with WFailed => 1 | _ => 0 end.
 
 Inductive case :=
 | CRead (s : list revh) (items : list (N * pbytes)) (f : N)
-| CWrite (msgs : list pbytes) (s : list wev) (written : pbytes) (failed : N).
+| CWrite (msgs : list pbytes) (s : list wev) (written : pbytes) (failed : N)
+(* combined poll_next: arrivals per poll (dst matches peer?, bytes), write / flush / read
+   scripts; observed items (tags 0-3 as above, 4 = mismatched peer, 5 = write error,
+   6 = flush error), fin (0 clean, 1 read-side failure, 2 polls used up), bytes written *)
+| CComb (arr : list (list (bool * pbytes))) (ws : list wev) (fs : list fev) (rs : list revh)
+        (items : list (N * pbytes)) (f : N) (written : pbytes)
+(* TimeoutStream: duration (ms), (clock advance, inner poll result) per poll; observed items
+   (0, id) ok item / (1, id) inner error item / (2, 0) timeout error; fin 0 end, 1 timed out,
+   2 script used up *)
+| CTimeout (d : N) (s : list (N * iev)) (items : list (N * N)) (f : N).
+
+Definition obs_titem (i : titem) : N * N :=
+  match i with TItem true id => (0, id) | TItem false id => (1, id) | TTimeout => (2, 0) end.
+Definition obs_tfin (f : tfin) : N := match f with TEnd => 0 | TTimedOut => 1 | TMore => 2 end.
+Definition nn_eqb (a b : N * N) : bool := N.eqb (fst a) (fst b) && N.eqb (snd a) (snd b).
+
+Definition obs_citem (i : citem) : N * list byte :=
+  match i with CRd i => obs_item i | CSnd EMismatch => (4, []) | CSnd EWrite => (5, []) | CSnd EFlush => (6, []) end.
+Definition obs_cfin (f : cfin) : N := match f with CClean => 0 | CFailed => 1 | CMore => 2 end.
+Definition arr_of (arr : list (list (bool * pbytes))) : list (list qmsg) :=
+  map (map (fun bm => (fst bm, unpack (snd bm)))) arr.
 
 Definition item_eqb (a : N * list byte) (b : N * pbytes) : bool :=
   N.eqb (fst a) (fst b) && bytes_eqb (snd a) (unpack (snd b)).
@@ -37,6 +58,13 @@ Definition check (c : case) : bool :=
   | CWrite msgs s written failed =>
       let '(w, fn) := write_run (map unpack msgs) s in
       bytes_eqb w (unpack written) && N.eqb (obs_wfin fn) failed
+  | CComb arr ws fs rs items f written =>
+      let '(is, fn, c) := comb_run (arr_of arr) ws fs (map rev_of rs) in
+      items_eqb (map obs_citem is) items && N.eqb (obs_cfin fn) f
+        && bytes_eqb (c_out c) (unpack written)
+  | CTimeout d s items f =>
+      let '(is, fn) := timeout_run d s in
+      list_eqb nn_eqb (map obs_titem is) items && N.eqb (obs_tfin fn) f
   end.
 
 Definition bad (cs : list case) : list N := bad_idx check 0 cs.
@@ -46,4 +74,10 @@ Definition show (c : case) :=
   match c with
   | CRead s _ _ => let '(is, fn) := read_run (map rev_of s) in (map obs_item is, obs_fin fn, @nil byte)
   | CWrite msgs s _ _ => let '(w, fn) := write_run (map unpack msgs) s in ([], obs_wfin fn, w)
+  | CComb arr ws fs rs _ _ _ =>
+      let '(is, fn, c) := comb_run (arr_of arr) ws fs (map rev_of rs) in
+      (map obs_citem is, obs_cfin fn, c_out c)
+  | CTimeout d s _ _ =>
+      let '(is, fn) := timeout_run d s in
+      (map (fun i => (fst (obs_titem i), [snd (obs_titem i)])) is, obs_tfin fn, @nil byte)
   end.
